@@ -1802,8 +1802,22 @@ def _lincomb_impl(a, x1, b, x2, out):
             out.data[:] = a * x1.data + b * x2.data
         return
 
-    elif (size < THRESHOLD_MEDIUM or
-          not _blas_is_applicable(x1.data, x2.data, out.data)):
+    # The alignment cases below are detected by object identity. Operands
+    # that share memory with ``out`` through a *different* object (e.g. two
+    # views ``x[0]`` of the same tensor, or ``space.element(x.data)``) are
+    # not covered by them and would be overwritten before they are read,
+    # hence they are evaluated from a copy.
+    if x1 is not out and np.may_share_memory(x1.data, out.data):
+        if x2 is x1:
+            x1 = x2 = x1.copy()
+        else:
+            x1 = x1.copy()
+    if (x2 is not out and x2 is not x1 and
+            np.may_share_memory(x2.data, out.data)):
+        x2 = x2.copy()
+
+    if (size < THRESHOLD_MEDIUM or
+            not _blas_is_applicable(x1.data, x2.data, out.data)):
 
         def fallback_axpy(x1, x2, n, a):
             """Fallback axpy implementation."""
